@@ -1,4 +1,4 @@
-import NirVerif.Lemmas.RestoreKeyed
+import NirVerif.Lemmas.Settled
 import NirVerif.Properties.C09
 
 /-! # C08 — type inference reconstructs exactly the erased shape annotations
@@ -220,27 +220,51 @@ theorem localTyping_of_nodes (g : Node) (τ : String → List Int × List Int)
       exact ⟨h1, h2, by rw [h3]; exact hout⟩
 
 
-/-! ## key-aware discharge: erased **Flatten** nodes as well -/
+/-! ## key-aware discharge: erased **Flatten, Conv1d, Conv2d and pooling** nodes as well -/
 
 theorem hasTypes_of_K (n : Node) (t : List Int × List Int) (h : HasTypesK n t) : HasTypes n t := by
-  obtain ⟨⟨vi, hi, hvi⟩, ⟨vo, ho, hvo⟩⟩ := h
+  obtain ⟨⟨vi, hi, hvi, _⟩, ⟨vo, ho, hvo, _⟩⟩ := h
   exact ⟨by rw [hi]; simpa [Spec.portShape, typeDict] using hvi, by rw [ho]; simpa [Spec.portShape, typeDict] using hvo⟩
 
 /-- What is asked of each node of the partly erased graph, with the standard port names: an
-`input` port (possibly undefined or wrong), and either it is an Input carrying `t`; or an
-Output (own shape erased or wrong) with `t.1 = t.2`; or a **Flatten whose output type was
-erased**, with `t.2` the flattening of a non-scalar `t.1` that preserves the element count;
-or any other primitive whose output type is the annotated `t.2`. -/
+`input` port (possibly undefined or wrong), and one of:
+* an Input carrying `t`;
+* an Output (own shape erased or wrong) with `t.1 = t.2`;
+* a **Flatten whose output type was erased**, `t.2` being the flattening of a non-scalar `t.1`
+  that preserves the element count;
+* a **Conv2d / Conv1d whose types were erased** (`input_shape=None`), `t.2` being the output
+  channels followed by `calculate_conv_output` of the spatial part of `t.1`;
+* a **pooling node** (its types are never serialised), `t.2` being the channel count followed by
+  `calculate_conv_output` of the spatial part with dilation 1;
+* any other primitive whose output type is the annotated `t.2`. -/
 def NodeOKK (n : Node) (t : List Int × List Int) : Prop :=
-  (∃ vi, n.inputType = typeDict "input" vi ∧ PortVal vi) ∧
+  (∃ vi, n.inputType = typeDict "input" vi ∧ PortVal vi ∧ WFShape vi) ∧
   ((n.kind = "Input" ∧ HasTypesK n t) ∨ (n.kind = "Output" ∧ t.1 = t.2) ∨
    (n.kind = "Flatten" ∧ n.outputType = typeDict "output" .none ∧
-      ∃ sd ed, n.field? "start_dim" = some (.int sd) ∧ n.field? "end_dim" = some (.int ed) ∧
+      ∃ sd ed, (n.field? "start_dim").bind Val.asInt? = some sd ∧ (n.field? "end_dim").bind Val.asInt? = some ed ∧
         t.1 ≠ [] ∧ t.2 = calcFlattenOutput t.1 sd ed ∧ Py.prod t.1 = Py.prod t.2 ∧ FitsI64 t.2) ∨
-   (n.kind ≠ "Output" ∧ ∃ w, n.outputType = typeDict "output" w ∧ Spec.shapeOfVal w = some t.2))
+   (n.kind = "Conv2d" ∧ n.outputType = typeDict "output" .none ∧
+      ∃ w wsh c spatial outs, n.field? "weight" = some w ∧ getShape w = .ok wsh ∧ 1 ≤ wsh.length ∧
+        t.1 = c :: spatial ∧
+        calculateConvOutput (.tuple (spatial.map Val.int)) ((n.field? "padding").getD .none)
+          ((n.field? "dilation").getD .none) (kernelOf wsh) ((n.field? "stride").getD .none) = .ok outs ∧
+        t.2 = Int.ofNat (wsh.getD 0 0) :: outs ∧ FitsI64 t.2) ∨
+   (n.kind = "Conv1d" ∧ n.outputType = typeDict "output" .none ∧
+      ∃ w wsh c n1 outs, n.field? "weight" = some w ∧ getShape w = .ok wsh ∧ 1 ≤ wsh.length ∧
+        t.1 = [c, n1] ∧
+        calculateConvOutput (.int n1) ((n.field? "padding").getD .none)
+          ((n.field? "dilation").getD .none) (kernelOf wsh) ((n.field? "stride").getD .none) = .ok outs ∧
+        t.2 = Int.ofNat (wsh.getD 0 0) :: outs ∧ FitsI64 t.2) ∨
+   ((n.kind = "SumPool2d" ∨ n.kind = "AvgPool2d") ∧ n.outputType = typeDict "output" .none ∧
+      ∃ c spatial outs, t.1 = c :: spatial ∧
+        calculateConvOutput (.tuple (spatial.map Val.int)) ((n.field? "padding").getD .none) (.int 1)
+          ((n.field? "kernel_size").getD .none) ((n.field? "stride").getD .none) = .ok outs ∧
+        outs ≠ [] ∧ t.2 = c :: outs ∧ FitsI64 t.2) ∨
+   (n.kind ≠ "Output" ∧ ∃ w, n.outputType = typeDict "output" w ∧ Spec.shapeOfVal w = some t.2 ∧ WFShape w))
 
-/-- Erasing / corrupting any subset of Output shapes, input-side annotations **and Flatten
-output types** of a type-consistent graph leaves `τ` locally consistent. -/
+/-- Erasing / corrupting any subset of Output shapes, input-side annotations, **Flatten
+output types, Conv1d/Conv2d types and pooling types** of a type-consistent graph leaves `τ`
+locally consistent: every kind of annotation that NIR allows to be undefined. -/
 theorem localTypingK_of_nodes (g : Node) (τ : String → List Int × List Int)
     (hnodes : ∀ k n, lookup k g.children = some n → NodeOKK n (τ k))
     (hsrc : ∀ k n, lookup k g.children = some n → n.isKind "Input" = true → HasTypesK n (τ k))
@@ -249,45 +273,63 @@ theorem localTypingK_of_nodes (g : Node) (τ : String → List Int × List Int)
   consistent := hcons
   step := by
     intro pre post preN postN post0 hmem hpre hpost0 hkind hcase
-    obtain ⟨vo, hpo, hso⟩ := hpre.2
+    obtain ⟨vo, hpo, hso, hwo⟩ := hpre.2
     have hc := hcons (pre, post) hmem
     simp only at hc
     rw [hc] at hso
-    obtain ⟨⟨vi0, hpi0, hvi0⟩, halt⟩ := hnodes post post0 hpost0
-    have hport : ∃ vi, postN.inputType = typeDict "input" vi ∧ PortVal vi := by
+    obtain ⟨⟨vi0, hpi0, hvi0, hwi0⟩, halt⟩ := hnodes post post0 hpost0
+    have hport : ∃ vi, postN.inputType = typeDict "input" vi ∧ PortVal vi ∧ WFShape vi := by
       rcases hcase with rfl | hty
-      · exact ⟨vi0, hpi0, hvi0⟩
-      · obtain ⟨v, hd, hv⟩ := hty.1
-        exact ⟨v, hd, Or.inr (by simp [hv])⟩
-    obtain ⟨vi, hpi, hvi⟩ := hport
+      · exact ⟨vi0, hpi0, hvi0, hwi0⟩
+      · obtain ⟨v, hd, hv, hwv⟩ := hty.1
+        exact ⟨v, hd, Or.inr (by simp [hv]), hwv⟩
+    obtain ⟨vi, hpi, hvi, hwi⟩ := hport
     have hτ : τ post = ((τ post).1, (τ post).2) := rfl
-    rcases halt with ⟨hk, hty0⟩ | ⟨hk, heq⟩ | ⟨hk, hout0, sd, ed, hsd, hed, hne, ht2, hcount, hfit⟩ | ⟨hk, w0, hout0, hw0⟩
-    · have hout : ∃ w, postN.outputType = typeDict "output" w ∧ Spec.shapeOfVal w = some (τ post).2 := by
-        rcases hcase with rfl | hty
-        · exact hty0.2
-        · exact hty.2
-      obtain ⟨w, hout, hw⟩ := hout
-      have hne : postN.kind ≠ "Output" := by rw [hkind, hk]; decide
+    -- a node that already carries τ is handled like any annotated node
+    have htyped : HasTypesK postN (τ post) → postN.kind ≠ "Output" →
+        (stepNode preN postN).2 = none ∧ HasTypesK (stepNode preN postN).1 (τ post) := by
+      intro hty hne'
+      obtain ⟨w', hout, hw', hww'⟩ := hty.2
       rw [hτ]
-      exact stepNode_annotatedK preN postN vo vi w _ _ hne hout hw hpo hso hpi hvi
-    · have := stepNode_outputK preN postN vo vi _ (by rw [hkind, hk]) hpo hso hpi hvi
+      exact stepNode_annotatedK preN postN vo vi w' _ _ hne' hout hw' hww' hpo hso hpi hvi hwo hwi
+    rcases halt with ⟨hk, hty0⟩ | ⟨hk, heq⟩ | ⟨hk, hout0, sd, ed, hsd, hed, hne, ht2, hcount, hfit⟩ |
+      ⟨hk, hout0, w, wsh, c, spatial, outs, hw, hwsh, hrank, ht1, hcalc, ht2, hfit⟩ |
+      ⟨hk, hout0, w, wsh, c, n1, outs, hw, hwsh, hrank, ht1, hcalc, ht2, hfit⟩ |
+      ⟨hk, hout0, c, spatial, outs, ht1, hcalc, hne, ht2, hfit⟩ | ⟨hk, w0, hout0, hw0, hww0⟩
+    · have hne : postN.kind ≠ "Output" := by rw [hkind, hk]; decide
+      rcases hcase with rfl | hty
+      · exact htyped hty0 hne
+      · exact htyped hty hne
+    · have := stepNode_outputK preN postN vo vi _ (by rw [hkind, hk]) hpo hso hpi hvi hwo hwi
       rw [hτ, ← heq]; exact this
     · rcases hcase with rfl | hty
-      · have := stepNode_flatten preN postN vo vi _ sd ed hk hout0 hsd hed hpo hso hne hpi hvi
+      · have := stepNode_flatten preN postN vo vi _ sd ed hk hout0 hsd hed hpo hso hne hpi hvi hwo hwi
           (by rw [← ht2]; exact hcount) (by rw [← ht2]; exact hfit)
         rw [hτ, ht2]; exact this
-      · obtain ⟨w, hout, hw⟩ := hty.2
-        have hne' : postN.kind ≠ "Output" := by rw [hkind, hk]; decide
-        rw [hτ]
-        exact stepNode_annotatedK preN postN vo vi w _ _ hne' hout hw hpo hso hpi hvi
-    · have hout : ∃ w, postN.outputType = typeDict "output" w ∧ Spec.shapeOfVal w = some (τ post).2 := by
-        rcases hcase with rfl | hty
-        · exact ⟨w0, hout0, hw0⟩
-        · exact hty.2
-      obtain ⟨w, hout, hw⟩ := hout
-      have hne : postN.kind ≠ "Output" := by rw [hkind]; exact hk
-      rw [hτ]
-      exact stepNode_annotatedK preN postN vo vi w _ _ hne hout hw hpo hso hpi hvi
+      · exact htyped hty (by rw [hkind, hk]; decide)
+    · rcases hcase with rfl | hty
+      · rw [ht1] at hso
+        have := stepNode_conv2d preN postN vo vi w c spatial outs wsh hk hout0 hw hwsh hrank hpo hso hpi hvi hwo hwi hcalc
+          (by rw [← ht2]; exact hfit)
+        rw [hτ, ht1, ht2]; exact this
+      · exact htyped hty (by rw [hkind, hk]; decide)
+    · rcases hcase with rfl | hty
+      · rw [ht1] at hso
+        have := stepNode_conv1d preN postN vo vi w c n1 outs wsh hk hout0 hw hwsh hrank hpo hso hpi hvi hwo hwi hcalc
+          (by rw [← ht2]; exact hfit)
+        rw [hτ, ht1, ht2]; exact this
+      · exact htyped hty (by rw [hkind, hk]; decide)
+    · rcases hcase with rfl | hty
+      · rw [ht1] at hso
+        have := stepNode_pool preN postN vo vi c spatial outs hk hout0 hpo hso hpi hvi hwo hwi hcalc hne
+          (by rw [← ht2]; exact hfit)
+        rw [hτ, ht1, ht2]; exact this
+      · exact htyped hty (by rw [hkind]; rcases hk with hk | hk <;> rw [hk] <;> decide)
+    · have hne : postN.kind ≠ "Output" := by rw [hkind]; exact hk
+      rcases hcase with rfl | hty
+      · rw [hτ]
+        exact stepNode_annotatedK preN postN vo vi w0 _ _ hne hout0 hw0 hww0 hpo hso hpi hvi hwo hwi
+      · exact htyped hty hne
 
 /-- **Restoration, including Flatten.**  `restoreG` at the key-aware typing. -/
 theorem restore_keyed (g : Node) (τ : String → List Int × List Int)
@@ -362,6 +404,39 @@ example : (inferTypes exGraph).2 = none ∧ checkTypes (inferTypes exGraph).1 = 
     (by decide) hreach hlt
   exact ⟨this.1, this.2.2⟩
 
+/-- the same, for the typing-and-mirroring predicate `HasTypesM` (every Output node ends up with
+exactly the renamed copy of its input type) -/
+theorem localTypingM_of_nodes (g : Node) (τ : String → List Int × List Int)
+    (hnodes : ∀ k n, lookup k g.children = some n → NodeOKK n (τ k))
+    (hsrc : ∀ k n, lookup k g.children = some n → n.isKind "Input" = true → HasTypesK n (τ k))
+    (hcons : ∀ e ∈ g.edges, (τ e.1).2 = (τ e.2).1) : LocalTypingG HasTypesM g τ where
+  sources := fun k n h hk => ⟨hsrc k n h hk, fun hko => by
+    have : n.kind = "Input" := by simpa [Node.isKind] using hk
+    rw [this] at hko; exact absurd hko (by decide)⟩
+  consistent := hcons
+  step := by
+    intro pre post preN postN post0 hmem hpre hpost0 hkind hcase
+    have hK := (localTypingK_of_nodes g τ hnodes hsrc hcons).step pre post preN postN post0 hmem hpre.1 hpost0 hkind
+      (hcase.imp id (fun h => h.1))
+    exact ⟨hK.1, hK.2, stepNode_mirrors _ _ hK.1⟩
+
+theorem restore_settled (g : Node) (τ : String → List Int × List Int)
+    (hkeys : (g.children.map Prod.fst).Nodup) (hflat : FlatEdges g)
+    (hleaf : ∀ k n, lookup k g.children = some n → n.isKind "NIRGraph" = false)
+    (hin : (graphInputs g).isEmpty = false)
+    (hall : ∀ k n, lookup k g.children = some n →
+      n.isKind "Input" = true ∨ Reach g.edges ((graphInputs g).map Prod.fst) k)
+    (hnodes : ∀ k n, lookup k g.children = some n → NodeOKK n (τ k))
+    (hsrc : ∀ k n, lookup k g.children = some n → n.isKind "Input" = true → HasTypesK n (τ k))
+    (hcons : ∀ e ∈ g.edges, (τ e.1).2 = (τ e.2).1) :
+    (inferTypes g).2 = none ∧
+    (∀ k n0, lookup k g.children = some n0 →
+      ∃ n, lookup k (inferTypes g).1.children = some n ∧ HasTypesM n (τ k)) ∧
+    checkTypes (inferTypes g).1 = .ok true :=
+  restoreG HasTypesM (fun n t h => hasTypes_of_K n t h.1) g τ hkeys hflat hleaf hin hall
+    (localTypingM_of_nodes g τ hnodes hsrc hcons)
+
+
 /-! ### non-vacuity of `restore_keyed`: Input[2,3] → Flatten (output erased) → Output (erased) -/
 
 def fxIn : Node := Node.mk "Input" [] (typeDict "input" (Val.ofInts [2, 3])) (typeDict "output" (Val.ofInts [2, 3])) (.dict []) [] []
@@ -383,7 +458,7 @@ theorem fx_lookup (k : String) (n : Node) (h : lookup k fxGraph.children = some 
 
 example : (inferTypes fxGraph).2 = none ∧ checkTypes (inferTypes fxGraph).1 = .ok true ∧
     ∃ n, lookup "f" (inferTypes fxGraph).1.children = some n ∧ Spec.portShape n.outputType = some [6] := by
-  have hInK : HasTypesK fxIn ([2, 3], [2, 3]) := ⟨⟨_, rfl, fx_shape⟩, ⟨_, rfl, fx_shape⟩⟩
+  have hInK : HasTypesK fxIn ([2, 3], [2, 3]) := ⟨⟨_, rfl, fx_shape, wf_ofInts _⟩, ⟨_, rfl, fx_shape, wf_ofInts _⟩⟩
   have hflat : FlatEdges fxGraph := by
     intro e he
     simp only [fxGraph, mkGraph, Node.edges, List.mem_cons, List.mem_nil_iff, or_false] at he
@@ -403,13 +478,13 @@ example : (inferTypes fxGraph).2 = none ∧ checkTypes (inferTypes fxGraph).1 = 
     (by
       intro k n h
       rcases fx_lookup k n h with ⟨rfl, rfl⟩ | ⟨rfl, rfl⟩ | ⟨rfl, rfl⟩
-      · exact ⟨⟨_, rfl, Or.inr (by rw [fx_shape]; rfl)⟩, Or.inl ⟨rfl, hInK⟩⟩
-      · refine ⟨⟨_, rfl, Or.inl rfl⟩, Or.inr (Or.inr (Or.inl ⟨rfl, rfl, 0, -1, rfl, rfl, ?_⟩))⟩
+      · exact ⟨⟨_, rfl, Or.inr (by rw [fx_shape]; rfl), wf_ofInts _⟩, Or.inl ⟨rfl, hInK⟩⟩
+      · refine ⟨⟨_, rfl, Or.inl rfl, trivial⟩, Or.inr (Or.inr (Or.inl ⟨rfl, rfl, 0, -1, rfl, rfl, ?_⟩))⟩
         refine ⟨by decide, by decide +kernel, by decide +kernel, ?_⟩
         intro x hx
         have : x = 6 := by simpa [fxTau] using hx
         subst this; decide
-      · exact ⟨⟨_, rfl, Or.inl rfl⟩, Or.inr (Or.inl ⟨rfl, rfl⟩)⟩)
+      · exact ⟨⟨_, rfl, Or.inl rfl, trivial⟩, Or.inr (Or.inl ⟨rfl, rfl⟩)⟩)
     (by
       intro k n h hk
       rcases fx_lookup k n h with ⟨rfl, rfl⟩ | ⟨rfl, rfl⟩ | ⟨rfl, rfl⟩
@@ -422,5 +497,88 @@ example : (inferTypes fxGraph).2 = none ∧ checkTypes (inferTypes fxGraph).1 = 
   refine ⟨this.1, this.2.2, ?_⟩
   obtain ⟨n, hn, hK⟩ := this.2.1 "f" fxFlat rfl
   exact ⟨n, hn, (hasTypes_of_K _ _ hK).2⟩
+
+/-! ### non-vacuity with an erased Conv2d and a pooling node:
+Input[1,5,5] → Conv2d(3×3, erased) → SumPool2d(3, types never stored) → Output(erased) -/
+
+def cxIn : Node := Node.mk "Input" [] (typeDict "input" (Val.ofInts [1, 5, 5])) (typeDict "output" (Val.ofInts [1, 5, 5])) (.dict []) [] []
+def cxPair (a : Int) : Val := .tuple [.int a, .int a]
+def cxConv : Node := Node.mk "Conv2d"
+  [("input_shape", .none), ("weight", .arr DType.float64 [2, 1, 3, 3] []), ("stride", cxPair 1), ("padding", cxPair 0),
+   ("dilation", cxPair 1), ("groups", .int 1), ("bias", .arr DType.float64 [2] [])]
+  (typeDict "input" .none) (typeDict "output" .none) (.dict []) [] []
+def cxPool : Node := Node.mk "SumPool2d" [("kernel_size", .int 3), ("stride", .int 1), ("padding", .int 0)]
+  (typeDict "input" .none) (typeDict "output" .none) (.dict []) [] []
+def cxGraph : Node := mkGraph [("in", cxIn), ("c", cxConv), ("p", cxPool), ("o", exOutErased)]
+  [("in", "c"), ("p", "o"), ("c", "p")]
+def cxTau : String → List Int × List Int := fun k =>
+  if k = "in" then ([1, 5, 5], [1, 5, 5]) else if k = "c" then ([1, 5, 5], [2, 3, 3])
+  else if k = "p" then ([2, 3, 3], [2, 1, 1]) else ([2, 1, 1], [2, 1, 1])
+
+theorem cx_shape : Spec.shapeOfVal (Val.ofInts [1, 5, 5]) = some [1, 5, 5] := by decide +kernel
+theorem cx_calc : calculateConvOutput (.tuple ([5, 5].map Val.int)) (cxPair 0) (cxPair 1) (kernelOf [2, 1, 3, 3]) (cxPair 1)
+    = .ok [3, 3] := by decide +kernel
+theorem cx_pool : calculateConvOutput (.tuple ([3, 3].map Val.int)) (.int 0) (.int 1) (.int 3) (.int 1)
+    = .ok [1, 1] := by decide +kernel
+
+theorem cx_lookup (k : String) (n : Node) (h : lookup k cxGraph.children = some n) :
+    (k = "in" ∧ n = cxIn) ∨ (k = "c" ∧ n = cxConv) ∨ (k = "p" ∧ n = cxPool) ∨ (k = "o" ∧ n = exOutErased) := by
+  simp only [cxGraph, mkGraph, Node.children, lookup] at h
+  repeat' split at h
+  all_goals (first | cases h | skip)
+  all_goals (rename_i hk; simp at hk)
+  all_goals simp_all
+
+example : (inferTypes cxGraph).2 = none ∧ checkTypes (inferTypes cxGraph).1 = .ok true ∧
+    (∃ n, lookup "c" (inferTypes cxGraph).1.children = some n ∧ Spec.portShape n.outputType = some [2, 3, 3]) ∧
+    (∃ n, lookup "p" (inferTypes cxGraph).1.children = some n ∧ Spec.portShape n.outputType = some [2, 1, 1]) := by
+  have hInK : HasTypesK cxIn ([1, 5, 5], [1, 5, 5]) := ⟨⟨_, rfl, cx_shape, wf_ofInts _⟩, ⟨_, rfl, cx_shape, wf_ofInts _⟩⟩
+  have hflat : FlatEdges cxGraph := by
+    intro e he
+    simp only [cxGraph, mkGraph, Node.edges, List.mem_cons, List.mem_nil_iff, or_false] at he
+    rcases he with rfl | rfl | rfl <;> exact ⟨_, _, rfl, rfl, rfl, rfl⟩
+  have hreach : ∀ k n, lookup k cxGraph.children = some n →
+      n.isKind "Input" = true ∨ Reach cxGraph.edges ((graphInputs cxGraph).map Prod.fst) k := by
+    intro k n h
+    have hin : "in" ∈ (graphInputs cxGraph).map Prod.fst := by decide
+    have hc : Reach cxGraph.edges ((graphInputs cxGraph).map Prod.fst) "c" := Reach.start (a := "in") (by decide) hin
+    have hp : Reach cxGraph.edges ((graphInputs cxGraph).map Prod.fst) "p" := Reach.step (a := "c") (by decide) hc
+    rcases cx_lookup k n h with ⟨rfl, rfl⟩ | ⟨rfl, rfl⟩ | ⟨rfl, rfl⟩ | ⟨rfl, rfl⟩
+    · left; rfl
+    · right; exact hc
+    · right; exact hp
+    · right; exact Reach.step (a := "p") (by decide) hp
+  have := restore_keyed cxGraph cxTau (by decide) hflat
+    (fun k n h => by rcases cx_lookup k n h with ⟨_, rfl⟩ | ⟨_, rfl⟩ | ⟨_, rfl⟩ | ⟨_, rfl⟩ <;> rfl)
+    (by decide) hreach
+    (by
+      intro k n h
+      rcases cx_lookup k n h with ⟨rfl, rfl⟩ | ⟨rfl, rfl⟩ | ⟨rfl, rfl⟩ | ⟨rfl, rfl⟩
+      · exact ⟨⟨_, rfl, Or.inr (by rw [cx_shape]; rfl), wf_ofInts _⟩, Or.inl ⟨rfl, hInK⟩⟩
+      · refine ⟨⟨_, rfl, Or.inl rfl, trivial⟩, Or.inr (Or.inr (Or.inr (Or.inl
+          ⟨rfl, rfl, _, [2, 1, 3, 3], 1, [5, 5], [3, 3], rfl, rfl, by decide, rfl, cx_calc, rfl, ?_⟩)))⟩
+        intro x hx
+        have : x = 2 ∨ x = 3 := by simpa [cxTau] using hx
+        rcases this with rfl | rfl <;> decide
+      · refine ⟨⟨_, rfl, Or.inl rfl, trivial⟩, Or.inr (Or.inr (Or.inr (Or.inr (Or.inr (Or.inl
+          ⟨Or.inl rfl, rfl, 2, [3, 3], [1, 1], rfl, cx_pool, by decide, rfl, ?_⟩)))))⟩
+        intro x hx
+        have : x = 2 ∨ x = 1 := by simpa [cxTau] using hx
+        rcases this with rfl | rfl <;> decide
+      · exact ⟨⟨_, rfl, Or.inl rfl, trivial⟩, Or.inr (Or.inl ⟨rfl, rfl⟩)⟩)
+    (by
+      intro k n h hk
+      rcases cx_lookup k n h with ⟨rfl, rfl⟩ | ⟨rfl, rfl⟩ | ⟨rfl, rfl⟩ | ⟨rfl, rfl⟩
+      · exact hInK
+      all_goals simp [Node.isKind, Node.kind, cxConv, cxPool, exOutErased] at hk)
+    (by
+      intro e he
+      simp only [cxGraph, mkGraph, Node.edges, List.mem_cons, List.mem_nil_iff, or_false] at he
+      rcases he with rfl | rfl | rfl <;> decide)
+  refine ⟨this.1, this.2.2, ?_, ?_⟩
+  · obtain ⟨n, hn, hK⟩ := this.2.1 "c" cxConv rfl
+    exact ⟨n, hn, (hasTypes_of_K _ _ hK).2⟩
+  · obtain ⟨n, hn, hK⟩ := this.2.1 "p" cxPool rfl
+    exact ⟨n, hn, (hasTypes_of_K _ _ hK).2⟩
 
 end NirVerif.C08
